@@ -65,7 +65,7 @@ func c06UseSites() []useSite {
 	na, nb := gen.Col("na"), gen.Col("nb")
 	one := gen.NumLit("1", "1")
 	w := func(f func(n gen.Expr) gen.Expr) func(n gen.Expr) gen.Expr { return f }
-	return []useSite{
+	sites := []useSite{
 		{name: "alone", pos: "where", tree: w(func(n gen.Expr) gen.Expr { return n })},
 		{name: "under-minus", pos: "where", tree: w(func(n gen.Expr) gen.Expr { return &gen.Unary{Op: "-", X: n} })},
 		{name: "under-plus", pos: "project", tree: w(func(n gen.Expr) gen.Expr { return &gen.Unary{Op: "+", X: n} })},
@@ -209,6 +209,102 @@ func c06UseSites() []useSite {
 				return []sqlx.Expr{st.CTEs[0].Q.Items[1].X}, nil
 			}},
 	}
+	return append(sites, c06ListSites()...)
+}
+
+// c06ListSites: the bound name alone as the first, middle or last element of every kind of list
+// (sort terms, project / extend columns, group keys, aggregates, join conditions, in-list values, call arguments).
+func c06ListSites() []useSite {
+	ins := func(others []string, j int, e string) string {
+		out := append([]string{}, others[:j]...)
+		out = append(out, e)
+		out = append(out, others[j:]...)
+		return strings.Join(out, ", ")
+	}
+	insE := func(others []gen.Expr, j int, e gen.Expr) []gen.Expr {
+		out := append([]gen.Expr{}, others[:j]...)
+		out = append(out, e)
+		return append(out, others[j:]...)
+	}
+	self := func(n gen.Expr) gen.Expr { return n }
+	byAlias := func(q *sqlx.Select, unwrapCall bool) ([]sqlx.Expr, error) {
+		for _, it := range q.Items {
+			if it.HasAlias && it.Alias == "c" {
+				if unwrapCall {
+					f, ok := it.X.(*sqlx.Func)
+					if !ok || len(f.Args) != 1 {
+						return nil, errShape
+					}
+					return []sqlx.Expr{f.Args[0]}, nil
+				}
+				return []sqlx.Expr{it.X}, nil
+			}
+		}
+		return nil, errShape
+	}
+	var out []useSite
+	for j := 0; j < 3; j++ {
+		j := j
+		pos := []string{"first", "middle", "last"}[j]
+		out = append(out,
+			useSite{name: "sort-term-" + pos, pos: "custom", tree: self,
+				build: func(e string) string { return "T | sort by " + ins([]string{"na asc", "nb"}, j, e) + " | take 5" },
+				extract: func(st *sqlx.Stmt) ([]sqlx.Expr, error) {
+					if len(st.Q.OrderBy) != 3 {
+						return nil, errShape
+					}
+					return []sqlx.Expr{st.Q.OrderBy[j].X}, nil
+				}},
+			useSite{name: "project-column-" + pos, pos: "custom", tree: self,
+				build:   func(e string) string { return "T | project " + ins([]string{"p = na", "q = nb"}, j, "c = "+e) },
+				extract: func(st *sqlx.Stmt) ([]sqlx.Expr, error) { return byAlias(st.Q, false) }},
+			useSite{name: "extend-column-" + pos, pos: "custom", tree: self,
+				build:   func(e string) string { return "T | extend " + ins([]string{"p = na + 1", "q = nb"}, j, "c = "+e) },
+				extract: func(st *sqlx.Stmt) ([]sqlx.Expr, error) { return byAlias(st.Q, false) }},
+			useSite{name: "group-key-" + pos, pos: "custom", tree: self,
+				build: func(e string) string {
+					return "T | summarize count() by " + ins([]string{"p = na", "q = nb"}, j, "c = "+e)
+				},
+				extract: func(st *sqlx.Stmt) ([]sqlx.Expr, error) { return byAlias(st.Q, false) }},
+			useSite{name: "aggregate-" + pos, pos: "custom", tree: self,
+				build: func(e string) string {
+					return "T | summarize " + ins([]string{"p = max(na)", "q = count()"}, j, "c = max("+e+")") + " by nb"
+				},
+				extract: func(st *sqlx.Stmt) ([]sqlx.Expr, error) { return byAlias(st.Q, true) }},
+			useSite{name: "join-condition-paren-" + pos, pos: "custom", truth: true,
+				tree: func(n gen.Expr) gen.Expr { return &gen.Paren{X: n} },
+				build: func(e string) string {
+					return "L | join kind=inner (R) on " + ins([]string{"k", "$left.na < $right.nb"}, j, e)
+				},
+				extract: func(st *sqlx.Stmt) ([]sqlx.Expr, error) {
+					if st.Q.Join == nil {
+						return nil, errShape
+					}
+					var conj []sqlx.Expr
+					var flat func(e sqlx.Expr)
+					flat = func(e sqlx.Expr) {
+						if b, ok := e.(*sqlx.Binary); ok && b.Op == "AND" {
+							flat(b.X)
+							flat(b.Y)
+							return
+						}
+						conj = append(conj, e)
+					}
+					flat(st.Q.Join.On)
+					if len(conj) != 3 {
+						return nil, errShape
+					}
+					return []sqlx.Expr{conj[j]}, nil
+				}},
+			useSite{name: "in-value-" + pos, pos: "where", tree: func(n gen.Expr) gen.Expr {
+				return &gen.In{X: gen.Col("na"), Vals: insE([]gen.Expr{gen.Col("nb"), gen.NumLit("7", "7")}, j, n)}
+			}},
+			useSite{name: "call-argument-" + pos, pos: "where", tree: func(n gen.Expr) gen.Expr {
+				return &gen.Call{Func: "g", Args: insE([]gen.Expr{gen.Col("na"), gen.NumLit("7", "7")}, j, n)}
+			}},
+		)
+	}
+	return out
 }
 
 type c06Params struct {
